@@ -555,6 +555,43 @@ func c11Process(c *vk.Ctx, r *rand.Rand, round int) bool {
 		return false
 	}
 	c.Count("half_closed_relays_completed_after_reloads", 1)
+	// quiet reloads: no traffic while the configuration is reloaded; the FIRST datagram and the first
+	// connection on the retained address afterwards are served by the configuration now in force
+	// (a fresh client each time, so that the reply can only come through a new association)
+	for q := 0; q < 2; q++ {
+		res, err := srv.Reload([]byte(cur.YAML()), 60*time.Second)
+		if err != nil || res != "ok" {
+			c.Violation("C11/valid-reload-failed", map[string]any{"phase": "quiet reload", "result": res, "err": fmt.Sprint(err)})
+			return false
+		}
+		time.Sleep(time.Duration(20+r.Intn(150)) * time.Millisecond)
+		qcl, err := newUDPClient(net.IPv4(198, 51, 100, byte(80+q)).To4(), 0, kStay)
+		if err != nil {
+			continue
+		}
+		id := nextID(c.Batch)
+		qcl.Send(ssUDP(kStay, randBytes(r, kStay.Codec().C.SaltSize), utgt.addr(), mkUDPPayload(id, 1, 16, 24)), retainedUDP)
+		_, fwd := utgt.waitID(id, udpB)
+		_, rep := qcl.waitReply(kStay, id|1<<56, udpB)
+		drops := lab.UDPDrops(retained)
+		qcl.Close()
+		c.Eval("quiet-reload|first-datagram")
+		if !fwd || !rep {
+			if drops > 0 {
+				c.Inconclusive("quiet reload: datagram missing, the kernel reports drops at the server socket")
+			} else {
+				c.Violation("C11/first-datagram-after-a-quiet-reload-not-served", map[string]any{"forwarded_to_target": fwd, "reply_received": rep, "quiet_reload": q + 1})
+				return false
+			}
+		}
+		caseN := nextID(c.Batch)
+		got, _, err := tcpExchange(retained, randSrc4(r), kStay, randBytes(r, kStay.Codec().C.SaltSize), caseIP4(caseN&0xffffff), hub.Port, putU64(caseN), 20*time.Second)
+		if err != nil || !bytes.Equal(got, putU64(caseN)) {
+			c.Violation("C11/first-connection-after-a-quiet-reload-not-served", map[string]any{"err": fmt.Sprint(err), "reply_len": len(got)})
+			return false
+		}
+		c.Count("quiet_reloads_first_datagram_served", 1)
+	}
 	for _, lr := range longs {
 		lr.cl.Conn.Close()
 	}
@@ -656,7 +693,7 @@ func init() {
 		Parallel:    func(t string) int { return 4 },
 		Timeout:     func(t string) time.Duration { return 25 * time.Minute },
 		Run: func(c *vk.Ctx) {
-			for _, s := range []string{"reloads", "exchanges_ok", "exchanges_started_inside_reload_window", "datagrams_exactly_once", "idle_relays_alive_after_reloads", "half_closed_relays_completed_after_reloads", "mid_transfer_chunks_echoed", "in_process_relays_completed_across_listener_close"} {
+			for _, s := range []string{"reloads", "exchanges_ok", "exchanges_started_inside_reload_window", "datagrams_exactly_once", "idle_relays_alive_after_reloads", "half_closed_relays_completed_after_reloads", "mid_transfer_chunks_echoed", "in_process_relays_completed_across_listener_close", "quiet_reloads_first_datagram_served"} {
 				c.Require(s)
 			}
 			c11Run(c)
